@@ -6,7 +6,9 @@
 // Input / output format: see ocaml/C09/driver.ml ("full" form for trk, "plain" form for the others).
 #include <cstddef>
 #include <cstdint>
+#include <cmath>
 #include <cstring>
+#include <limits>
 #include <iostream>
 #include <set>
 #include <sstream>
@@ -288,6 +290,52 @@ struct FamInt {
   static std::string peekU(const U &x) { return std::to_string(x); }
 };
 
+// payload families whose comparison operators are coarser than identity: a code is 4 * key + shadow
+//   ks : {int key; int shadow;} compared on key only (U: a struct convertible to it)
+//   dbl: double / float with code 0 = +0.0, 1 = -0.0 (equal, sign bit differs), 4k = k
+struct KS2 { int key; int shadow; };
+struct KSU { int key; int shadow; operator KS2() const { return KS2{key, shadow}; } };
+static int keyof(const KS2 &a) { return a.key; }
+static int keyof(const KSU &a) { return a.key; }
+#define KEY_CMP(A, B)                                                                 \
+  static bool operator==(const A &a, const B &b) { return keyof(a) == keyof(b); }     \
+  static bool operator!=(const A &a, const B &b) { return keyof(a) != keyof(b); }     \
+  static bool operator<(const A &a, const B &b) { return keyof(a) < keyof(b); }       \
+  static bool operator<=(const A &a, const B &b) { return keyof(a) <= keyof(b); }     \
+  static bool operator>(const A &a, const B &b) { return keyof(a) > keyof(b); }       \
+  static bool operator>=(const A &a, const B &b) { return keyof(a) >= keyof(b); }
+KEY_CMP(KS2, KS2) KEY_CMP(KS2, KSU) KEY_CMP(KSU, KS2) KEY_CMP(KSU, KSU)
+struct FamKS {
+  using T = KS2; using U = KSU;
+  static const bool inst = false;
+  static const char *name() { return "ks"; }
+  static T encT(long v) { return KS2{(int)(v / 4), (int)(v % 4)}; }
+  static U encU(long v) { return KSU{(int)(v / 4), (int)(v % 4)}; }
+  static long decT(const T &x) { return 4L * x.key + x.shadow; }      // the full stored state
+  static long decU(const U &x) { return 4L * x.key + x.shadow; }
+  static std::string peekT(const T &x) { return std::to_string(decT(x)); }
+  static std::string peekU(const U &x) { return std::to_string(decU(x)); }
+};
+template <typename F> static F fp_enc(long v) { return v == 0 ? (F)0.0 : v == 1 ? (F)-0.0 : (F)(v / 4); }
+template <typename F> static long fp_dec(F x)                          // bit-exact: the sign of a zero is state
+{
+  if (x != x) return -2;
+  if (x == (F)0) return std::signbit(x) ? 1 : 0;
+  long k = (long)x;
+  return ((F)k == x) ? 4 * k : -7;
+}
+struct FamDbl {
+  using T = double; using U = float;
+  static const bool inst = false;
+  static const char *name() { return "dbl"; }
+  static T encT(long v) { return fp_enc<double>(v); }
+  static U encU(long v) { return fp_enc<float>(v); }
+  static long decT(const T &x) { return fp_dec<double>(x); }
+  static long decU(const U &x) { return fp_dec<float>(x); }
+  static std::string peekT(const T &x) { return std::to_string(decT(x)); }
+  static std::string peekU(const U &x) { return std::to_string(decU(x)); }
+};
+
 static std::vector<std::string> split(const std::string &s, char d)
 {
   std::vector<std::string> r; std::string t; std::istringstream is(s);
@@ -506,6 +554,27 @@ template <typename F> struct Run {
 // ------------------------------------------------------------------ Any histories
 struct NoEq { Trk<2> t; };                 // a payload type without operator==
 typedef Trk<3> ATrk;
+// payload types whose operator== is coarser than identity (or not reflexive):
+//   tag 6: double, code 0 = +0.0, 1 = -0.0, 2 = quiet NaN, k >= 3 -> k + 0.25
+//   tag 7: KS {key, shadow} compared on key only, code = 16 * key + shadow
+static const long NTAGS = 8;
+struct KS { int key; int shadow; bool operator==(const KS &o) const { return key == o.key; } };
+static double dbl_enc(long c)
+{
+  if (c == 0) return 0.0;
+  if (c == 1) return -0.0;
+  if (c == 2) return std::numeric_limits<double>::quiet_NaN();
+  return (double)c + 0.25;
+}
+static long dbl_dec(double x)   // the FULL stored state: sign bit of zero and NaN-ness are part of it
+{
+  if (std::isnan(x)) return 2;
+  if (x == 0.0) return std::signbit(x) ? 1 : 0;
+  long c = (long)x;
+  return (x == (double)c + 0.25 && c >= 3) ? c : -7;
+}
+static KS ks_enc(long c) { return KS{(int)(c / 16), (int)(c % 16)}; }
+static long ks_dec(const KS &k) { return 16L * k.key + k.shadow; }
 static Any &any_at(int i) { return *reinterpret_cast<Any *>(g_slots[i].buf); }
 static std::string astr(long v) { return "s" + std::to_string(v) + std::string(20 + v % 9, 'w'); }
 static vec3f avec(long v) { return vec3f((float)v, (float)v + 1, (float)v + 2); }
@@ -518,6 +587,8 @@ static Any any_make(long t, long v)
   case 2: return Any(astr(v));
   case 3: return Any(avec(v));
   case 4: return Any(NoEq{Trk<2>(Code{v})});
+  case 6: return Any(dbl_enc(v));
+  case 7: return Any(ks_enc(v));
   default: return Any(ATrk(Code{v}));
   }
 }
@@ -529,6 +600,8 @@ static void any_assign_value(Any &a, long t, long v)
   case 2: a = astr(v); break;
   case 3: a = avec(v); break;
   case 4: a = NoEq{Trk<2>(Code{v})}; break;
+  case 6: a = dbl_enc(v); break;
+  case 7: a = ks_enc(v); break;
   default: a = ATrk(Code{v}); break;
   }
 }
@@ -540,6 +613,8 @@ static long any_get(const Any &a, long t)   // throws std::runtime_error on a ty
   case 2: return std::stol(a.get<std::string>().substr(1));
   case 3: { const vec3f &v = a.get<vec3f>(); if (v.y != v.x + 1 || v.z != v.x + 2) return -7; return (long)v.x; }
   case 4: { const NoEq &n = a.get<NoEq>(); return G.live.count(&n.t) ? n.t.code : -1; }
+  case 6: return dbl_dec(a.get<double>());
+  case 7: return ks_dec(a.get<KS>());
   default: { const ATrk &n = a.get<ATrk>(); return G.live.count(&n) ? n.code : -1; }
   }
 }
@@ -551,6 +626,8 @@ static void any_set(Any &a, long t, long v)
   case 2: a.get<std::string>() = astr(v); break;
   case 3: a.get<vec3f>() = avec(v); break;
   case 4: a.get<NoEq>().t.code = v; break;
+  case 6: a.get<double>() = dbl_enc(v); break;
+  case 7: a.get<KS>() = ks_enc(v); break;
   default: a.get<ATrk>().code = v; break;
   }
 }
@@ -562,12 +639,14 @@ static bool any_is(const Any &a, long t)
   case 2: return a.is<std::string>();
   case 3: return a.is<vec3f>();
   case 4: return a.is<NoEq>();
+  case 6: return a.is<double>();
+  case 7: return a.is<KS>();
   default: return a.is<ATrk>();
   }
 }
 static const char *any_tname(long t)
 {
-  static const char *n[] = {"int", "float", "basic_string", "vec_t", "NoEq", "Trk"};
+  static const char *n[] = {"int", "float", "basic_string", "vec_t", "NoEq", "Trk", "double", "KS"};
   return n[t];
 }
 static std::string any_dump()
@@ -579,7 +658,7 @@ static std::string any_dump()
     const Any &a = any_at(i);
     if (!a.valid()) { r += "e"; continue; }
     int n = 0; long tag = -1;
-    for (long t = 0; t < 6; ++t) if (any_is(a, t)) { ++n; tag = t; }
+    for (long t = 0; t < NTAGS; ++t) if (any_is(a, t)) { ++n; tag = t; }
     if (n != 1) { r += "!TAGS" + std::to_string(n); continue; }
     r += std::to_string(tag) + ":" + std::to_string(any_get(a, tag));
   }
@@ -627,7 +706,7 @@ static std::string any_step(const std::string &tok)
   if (c == "str") {
     std::string s = ca.toString();
     if (!ca.valid()) return "str=empty";
-    for (long t = 0; t < 6; ++t)
+    for (long t = 0; t < NTAGS; ++t)
       if (any_is(ca, t)) return s.find(any_tname(t)) != std::string::npos ? "str=" + std::to_string(t) : "str=?" + s;
     return "str=?";
   }
@@ -670,7 +749,7 @@ int main(int argc, char **argv)
 {
   std::string mode = argc > 1 ? argv[1] : "trk";
   if (mode == "facts") {
-    facts<FamTrk>(); facts<FamStr>(); facts<FamVec>(); facts<FamOver>(); facts<FamInt>();
+    facts<FamTrk>(); facts<FamStr>(); facts<FamVec>(); facts<FamOver>(); facts<FamInt>(); facts<FamKS>();
     fact<char>("char"); fact<short>("short"); fact<double>("double"); fact<long double>("longdouble");
     fact<void *>("ptr"); fact<vec3f>("vec3f"); fact<rkcommon::math::vec4f>("vec4f"); fact<CacheLine>("cacheline");
     fact<Packed3>("packed3"); fact<Optional<double>>("optdouble");
@@ -688,6 +767,8 @@ int main(int argc, char **argv)
       else if (mode == "str") r = Run<FamStr>::history(ops);
       else if (mode == "vec") r = Run<FamVec>::history(ops);
       else if (mode == "over") r = Run<FamOver>::history(ops);
+      else if (mode == "ks") r = Run<FamKS>::history(ops);
+      else if (mode == "dbl") r = Run<FamDbl>::history(ops);
       else r = Run<FamInt>::history(ops);
     } else if (kind == "A") r = any_history(ops);
     std::cout << r << std::endl;
